@@ -341,6 +341,19 @@ impl<'a> ExecutionEngine<'a> {
         Ok(
             match self.statement.join_clause() {
                 Some(join_clause) => {
+                    // The joiner column is otherwise only looked up when the first row is admitted
+                    let from = match self.statement {
+                        Statement::Select(select_statement) => Some(&select_statement.from),
+                        Statement::Aggregate(aggregate_statement) => Some(&aggregate_statement.from),
+                        _ => None
+                    };
+
+                    if let Some(from) = from {
+                        self.get_table(from)?
+                            .index_for(&join_clause.joiner_column)
+                            .ok_or_else(|| ExecutionError::ColumnNotFound(join_clause.joiner_column.clone()))?;
+                    }
+
                     self.joined_table_data = Some(JoinedTableData::execute(self.tables, running.clone(), join_clause)?);
                 },
                 None => {
